@@ -70,11 +70,56 @@ var heapTargets = []target{
 	{"node.go", "newNode"},
 	{"tree_handler_programmably.go", "NewRoot"},
 	{"tree_handler_programmably.go", "Node.Add"},
+	{"simple_tree_spreader.go", "toFormattedNode"},
+	{"simple_tree_spreader.go", "jsonNode.setChild"},
+	{"simple_tree_spreader.go", "jsonNode.getChild"},
 }
 
 // structs that live in the heap (handled through pointers) and value structs generated here; other value structs
 // (branch, branchFormat) are the ones of Generated/Source.lean
-var heapStructs = map[string]string{"Node": "node.go"}
+var heapStructs = map[string]string{"Node": "node.go", "jsonNode": "simple_tree_spreader.go"}
+
+// the second heap: the records handed to the encoders (jsonNode; yamlNode and tomlNode have the same methods). Its cells,
+// heap variable and allocator:
+const recStruct = "jsonNode"
+
+func hv(structName string) string {
+	if structName == recStruct {
+		return "hj_"
+	}
+	return "h_"
+}
+func av(structName string) string {
+	if structName == recStruct {
+		return "alj_"
+	}
+	return "al_"
+}
+func cellOf(structName string) string {
+	if structName == recStruct {
+		return "CellJ"
+	}
+	return "Cell"
+}
+func heapTy(structName string) string {
+	if structName == recStruct {
+		return "HeapJ"
+	}
+	return "Heap"
+}
+
+// heapStructOf: the heap struct a pointer type points to ("" if none)
+func heapStructOf(g string) string {
+	if strings.HasPrefix(g, "*") {
+		if _, ok := heapStructs[g[1:]]; ok {
+			return g[1:]
+		}
+	}
+	return ""
+}
+
+// the type parameter of toFormattedNode and the interface its records implement are the record pointer here
+var typeAlias = map[string]string{"T": "*" + recStruct, "sitter": "*" + recStruct}
 var heapValueStructs = map[string]string{"defaultGrowerSimple": "simple_tree_grower.go", "fileConsiderer": "file_considerer.go",
 	"defaultMkdirerSimple": "simple_tree_mkdirer.go", "defaultWalkerSimple": "simple_tree_walker.go",
 	"defaultSpreaderSimple": "simple_tree_spreader.go", "defaultGrowSpreaderSimple": "simple_tree_grow_spreader.go",
@@ -95,6 +140,9 @@ type hfn struct {
 	writesFS bool // changes the file system (os.MkdirAll, os.Create)
 	usesCB   bool // calls a user callback (whose state is threaded)
 	writesW  bool // writes to the caller's io.Writer
+	usesJ    bool // reads the record heap hj_
+	mutatesJ bool // assigns through a record pointer
+	allocsJ  bool // allocates a record
 	allocs   bool // allocates a node (`&Node{…}`): the allocator `al_` (the next unused pointer) is threaded
 	usesIdx  bool // uses the package-level counter idxCounter (threaded as `idx_`)
 	mutRecv  bool // changes a counter field of its receiver: the receiver is returned
@@ -118,6 +166,9 @@ type htr struct {
 func typeStr(e ast.Expr) string {
 	switch x := e.(type) {
 	case *ast.Ident:
+		if a, ok := typeAlias[x.Name]; ok {
+			return a
+		}
 		return x.Name
 	case *ast.StarExpr:
 		return "*" + typeStr(x.X)
@@ -183,6 +234,9 @@ func (t *htr) leanType(g string) string {
 		if _, ok := heapStructs[g[3:]]; ok {
 			return "(List Go.Ptr)"
 		}
+	}
+	if g == "sitter" || g == "T" {
+		return "Go.Ptr"
 	}
 	if _, ok := srcStructs[g]; ok {
 		return "Src." + g
@@ -372,6 +426,12 @@ func (f *hfn) outs() []string {
 	if f.mutates {
 		o = append(o, "h_")
 	}
+	if f.mutatesJ {
+		o = append(o, "hj_")
+	}
+	if f.allocsJ {
+		o = append(o, "alj_")
+	}
 	if f.writesFS {
 		o = append(o, "fs_")
 	}
@@ -397,6 +457,12 @@ func (f *hfn) outs() []string {
 }
 func (f *hfn) ins() []string {
 	i := []string{"h_"}
+	if f.usesJ || f.mutatesJ {
+		i = append(i, "hj_")
+	}
+	if f.allocsJ {
+		i = append(i, "alj_")
+	}
 	if f.usesFS || f.writesFS {
 		i = append(i, "fs_")
 	}
@@ -657,6 +723,14 @@ func (t *htr) scopeOf(f *hfn) *hscope {
 func (t *htr) analyse() {
 	hasLoop := map[string]bool{}
 	for _, f := range t.fns {
+		if heapStructOf(f.recvType) == recStruct {
+			f.usesJ = true
+		}
+		for _, p := range f.params {
+			if heapStructOf(p[1]) == recStruct {
+				f.usesJ = true
+			}
+		}
 		for _, p := range f.params {
 			if p[1] == callbackType {
 				f.usesCB = true
@@ -678,7 +752,11 @@ func (t *htr) analyse() {
 			case *ast.UnaryExpr:
 				if cl, ok := x.X.(*ast.CompositeLit); ok && x.Op == token.AND {
 					if _, ok := heapStructs[typeStr(cl.Type)]; ok {
-						f.allocs, f.mutates = true, true
+						if typeStr(cl.Type) == recStruct {
+							f.allocsJ, f.mutatesJ = true, true
+						} else {
+							f.allocs, f.mutates = true, true
+						}
 					}
 				}
 			case *ast.CallExpr:
@@ -712,7 +790,11 @@ func (t *htr) analyse() {
 					}
 				}
 				for _, l := range x.Lhs {
-					if t.throughPointer(sc, l) {
+					switch t.throughPointerOf(sc, l) {
+					case "":
+					case recStruct:
+						f.mutatesJ = true
+					default:
 						f.mutates = true
 					}
 				}
@@ -796,12 +878,33 @@ func (t *htr) analyse() {
 				if g.allocs && !f.allocs {
 					f.allocs, changed = true, true
 				}
+				if g.allocsJ && !f.allocsJ {
+					f.allocsJ, changed = true, true
+				}
+				if g.mutatesJ && !f.mutatesJ {
+					f.mutatesJ, changed = true, true
+				}
+				if (g.usesJ || g.mutatesJ) && !f.usesJ {
+					f.usesJ, changed = true, true
+				}
 				if g.usesIdx && !f.usesIdx {
 					f.usesIdx, changed = true, true
 				}
 			}
 		}
 	}
+}
+
+// throughPointerOf: the heap struct through whose pointer the assignable expression is reached ("" if none)
+func (t *htr) throughPointerOf(sc *hscope, e ast.Expr) string {
+	se, ok := e.(*ast.SelectorExpr)
+	if !ok {
+		return ""
+	}
+	if hs := heapStructOf(t.typeOf(sc, se.X)); hs != "" {
+		return hs
+	}
+	return t.throughPointerOf(sc, se.X)
 }
 
 // throughPointer: the assignable expression is a field (of a field …) reached through a heap pointer
@@ -820,6 +923,8 @@ func (t *htr) throughPointer(sc *hscope, e ast.Expr) bool {
 
 func (t *htr) ex(sc *hscope, e ast.Expr, want string) string {
 	switch x := e.(type) {
+	case *ast.TypeAssertExpr:
+		return t.ex(sc, x.X, want) // `v.(T)`: the records are of one type here
 	case *ast.ParenExpr:
 		return "(" + t.ex(sc, x.X, want) + ")"
 	case *ast.BasicLit:
@@ -862,8 +967,8 @@ func (t *htr) ex(sc *hscope, e ast.Expr, want string) string {
 		if t.fieldType(strings.TrimPrefix(bt, "*"), x.Sel.Name) == "?" {
 			return t.fail(x.Pos(), "selector .%s on %s", x.Sel.Name, bt)
 		}
-		if isHeapPtr(bt) {
-			return "(h_ " + t.ex(sc, x.X, bt) + ")." + id(x.Sel.Name)
+		if hs := heapStructOf(bt); hs != "" {
+			return "(" + hv(hs) + " " + t.ex(sc, x.X, bt) + ")." + id(x.Sel.Name)
 		}
 		return t.ex(sc, x.X, bt) + "." + id(x.Sel.Name)
 	case *ast.UnaryExpr:
@@ -918,7 +1023,7 @@ func (t *htr) ex(sc *hscope, e ast.Expr, want string) string {
 		return t.fail(x.Pos(), "operator %s", x.Op)
 	case *ast.IndexExpr:
 		bt := t.typeOf(sc, x.X)
-		if bt == "[]*Node" {
+		if strings.HasPrefix(bt, "[]*") && heapStructOf(bt[2:]) != "" {
 			return "(Go.idxPtr " + t.ex(sc, x.X, bt) + " " + t.ex(sc, x.Index, "int") + ")"
 		}
 		return t.fail(x.Pos(), "index into %s", bt)
@@ -1350,6 +1455,20 @@ func (t *htr) seq(sc *hscope, stmts []ast.Stmt, c *hcont, ind string) string {
 		if g == nil {
 			return ind + t.fail(x.Pos(), "call statement of an untranslated function") + "\n"
 		}
+		{
+			pre := ""
+			n := 0
+			y := *call
+			y.Args = nil
+			for _, a := range call.Args {
+				p1, a1 := t.hoist(sc, a, c, ind, &n)
+				pre += p1
+				y.Args = append(y.Args, a1)
+			}
+			if pre != "" {
+				return pre + t.seq(sc, append([]ast.Stmt{&ast.ExprStmt{X: &y}}, rest...), c, ind)
+			}
+		}
 		return t.bindCall(sc, nil, call, g, c, ind) + t.seq(sc, rest, c, ind)
 	case *ast.DeclStmt:
 		return ind + t.fail(x.Pos(), "declaration statement") + "\n"
@@ -1398,6 +1517,29 @@ func (t *htr) seq(sc *hscope, stmts []ast.Stmt, c *hcont, ind string) string {
 			b.WriteString(ind + "match Go.forRange (List.range (Int.toNat " + t.ex(sc, x.X, "int") + ")) " + tupleOf(state) + " (fun _ st_ =>\n")
 			b.WriteString(rebind(state, "st_", ind+"    "))
 			b.WriteString(t.seq(sc.clone(), x.Body.List, lc, ind+"    "))
+			b.WriteString(ind + "  ) with\n")
+			b.WriteString(ind + "| Go.Ctl.ret r_ => " + c.retRaw("r_") + "\n")
+			b.WriteString(ind + "| Go.Ctl.brk st_ | Go.Ctl.next st_ =>\n")
+			b.WriteString(rebind(state, "st_", ind+"  "))
+			b.WriteString(t.seq(sc, rest, c, ind+"  "))
+			return b.String()
+		}
+		if k, ok := x.Key.(*ast.Ident); ok && x.Value == nil && k.Name != "_" && strings.HasPrefix(t.typeOf(sc, x.X), "[]") {
+			// `for i := range xs`: the indices
+			state := append(append([]string{}, f.outs()...), t.assigned(sc, x.Body.List)...)
+			body := sc.clone()
+			body.declare(k.Name, "int")
+			lc := &hcont{
+				retRaw: func(val string) string { return "Go.Ctl.ret " + val },
+				none:   func() string { return "Go.Ctl.ret none" },
+				fall:   func(*hscope) string { return "Go.Ctl.next " + tupleOf(state) },
+				next:   func(*hscope) string { return "Go.Ctl.next " + tupleOf(state) },
+				brk:    func(*hscope) string { return "Go.Ctl.brk " + tupleOf(state) },
+			}
+			var b strings.Builder
+			b.WriteString(ind + "match Go.forRange (Go.indices " + t.ex(sc, x.X, t.typeOf(sc, x.X)) + ") " + tupleOf(state) + " (fun " + id(k.Name) + " st_ =>\n")
+			b.WriteString(rebind(state, "st_", ind+"    "))
+			b.WriteString(t.seq(body, x.Body.List, lc, ind+"    "))
 			b.WriteString(ind + "  ) with\n")
 			b.WriteString(ind + "| Go.Ctl.ret r_ => " + c.retRaw("r_") + "\n")
 			b.WriteString(ind + "| Go.Ctl.brk st_ | Go.Ctl.next st_ =>\n")
@@ -1477,6 +1619,29 @@ func (t *htr) seq(sc *hscope, stmts []ast.Stmt, c *hcont, ind string) string {
 }
 
 // assignH: one assignment statement as `let` lines
+// allocCell: the cell a composite literal of a heap struct describes (unnamed fields are zero)
+func (t *htr) allocCell(sc *hscope, cl *ast.CompositeLit) (string, bool) {
+	sn := typeStr(cl.Type)
+	vals := map[string]string{}
+	for _, el := range cl.Elts {
+		kv, ok := el.(*ast.KeyValueExpr)
+		if !ok {
+			return "", false
+		}
+		k := kv.Key.(*ast.Ident).Name
+		vals[k] = t.ex(sc, kv.Value, t.fieldType(sn, k))
+	}
+	var fs []string
+	for _, fl := range t.structs[sn] {
+		v, ok := vals[fl[0]]
+		if !ok {
+			v = zeroLean(fl[1])
+		}
+		fs = append(fs, id(fl[0])+" := "+v)
+	}
+	return "{ " + strings.Join(fs, ", ") + " }", true
+}
+
 func (t *htr) counterStmt(sc *hscope, fld, op, ind string) string {
 	r := id(sc.fn.recvName)
 	if op == "reset" {
@@ -1489,6 +1654,23 @@ func (t *htr) counterStmt(sc *hscope, fld, op, ind string) string {
 // Go's evaluation order for the operands of `+`); the expression is rebuilt over the temporaries
 func (t *htr) hoist(sc *hscope, e ast.Expr, c *hcont, ind string, n *int) (string, ast.Expr) {
 	switch x := e.(type) {
+	case *ast.TypeAssertExpr:
+		pre, y := t.hoist(sc, x.X, c, ind, n)
+		return pre, y
+	case *ast.UnaryExpr:
+		// `&S{…}` of a heap struct: a new cell at the allocator's pointer
+		if cl, ok := x.X.(*ast.CompositeLit); ok && x.Op == token.AND {
+			sn := typeStr(cl.Type)
+			if _, ok := heapStructs[sn]; ok {
+				if txt, ok := t.allocCell(sc, cl); ok {
+					*n++
+					tmp := fmt.Sprintf("t%d_", *n)
+					sc.declare(tmp, "*"+sn)
+					return ind + "let " + tmp + " := " + av(sn) + "\n" + ind + "let " + hv(sn) + " := " + heapTy(sn) + ".set " + hv(sn) + " " + tmp + " " + txt + "\n" +
+						ind + "let " + av(sn) + " := " + av(sn) + " + 1\n", ast.NewIdent(tmp)
+				}
+			}
+		}
 	case *ast.ParenExpr:
 		pre, y := t.hoist(sc, x.X, c, ind, n)
 		return pre, &ast.ParenExpr{X: y}
@@ -1619,9 +1801,19 @@ func (t *htr) assignH(sc *hscope, x *ast.AssignStmt, c *hcont, ind string) strin
 				break
 			}
 		}
+		hs := heapStructOf(t.typeOf(sc, base))
+		pre := ""
+		{
+			n := 0
+			p1, r1 := t.hoist(sc, x.Rhs[0], c, ind, &n)
+			if p1 != "" {
+				pre = p1
+				x = &ast.AssignStmt{Lhs: x.Lhs, Tok: x.Tok, Rhs: []ast.Expr{r1}}
+			}
+		}
 		p := t.ex(sc, base, t.typeOf(sc, base))
 		rhs := t.ex(sc, x.Rhs[0], t.typeOf(sc, l))
-		cur := "(h_ " + p + ")"
+		cur := "(" + hv(hs) + " " + p + ")"
 		// build nested `with`
 		var build func(obj string, fields []string) string
 		build = func(obj string, fields []string) string {
@@ -1630,7 +1822,7 @@ func (t *htr) assignH(sc *hscope, x *ast.AssignStmt, c *hcont, ind string) strin
 			}
 			return "{ " + obj + " with " + id(fields[0]) + " := " + build(obj+"."+id(fields[0]), fields[1:]) + " }"
 		}
-		return ind + "let h_ := Heap.set h_ " + p + " " + build(cur, path) + "\n"
+		return pre + ind + "let " + hv(hs) + " := " + heapTy(hs) + ".set " + hv(hs) + " " + p + " " + build(cur, path) + "\n"
 	}
 	return ind + t.fail(x.Pos(), "assignment") + "\n"
 }
@@ -1653,16 +1845,13 @@ func (t *htr) render() string {
 		hs = append(hs, s)
 	}
 	sort.Strings(hs)
-	if len(hs) != 1 {
-		t.errs = append(t.errs, "exactly one heap struct is supported")
-	}
 	for _, s := range hs {
-		b.WriteString("/-- a heap cell: the fields of `" + s + "` (pointers are `Go.Ptr`, 0 = nil) -/\nstructure Cell where\n")
+		b.WriteString("/-- a heap cell: the fields of `" + s + "` (pointers are `Go.Ptr`, 0 = nil) -/\nstructure " + cellOf(s) + " where\n")
 		for _, f := range t.structs[s] {
 			b.WriteString("  " + id(f[0]) + " : " + t.leanType(f[1]) + "\n")
 		}
-		b.WriteString("\n/-- the heap: every pointer has a cell (what an unallocated pointer holds is unconstrained) -/\nabbrev Heap := Go.Ptr → Cell\n")
-		b.WriteString("/-- an assignment through the pointer `p` -/\ndef Heap.set (h : Heap) (p : Go.Ptr) (c : Cell) : Heap := fun q => if q = p then c else h q\n\n")
+		b.WriteString("\n/-- the heap of `" + s + "` cells: every pointer has a cell (what an unallocated pointer holds is unconstrained) -/\nabbrev " + heapTy(s) + " := Go.Ptr → " + cellOf(s) + "\n")
+		b.WriteString("/-- an assignment through the pointer `p` -/\ndef " + heapTy(s) + ".set (h : " + heapTy(s) + ") (p : Go.Ptr) (c : " + cellOf(s) + ") : " + heapTy(s) + " := fun q => if q = p then c else h q\n\n")
 	}
 	var vs []string
 	for s := range heapValueStructs {
@@ -1773,6 +1962,10 @@ func (t *htr) function(f *hfn) string {
 		switch o {
 		case "h_":
 			rts = append(rts, "Heap")
+		case "hj_":
+			rts = append(rts, "HeapJ")
+		case "alj_":
+			rts = append(rts, "Go.Ptr")
 		case "fs_":
 			rts = append(rts, "FS")
 		case "w_":
@@ -1808,6 +2001,12 @@ func (t *htr) function(f *hfn) string {
 		fall:   func(*hscope) string { return t.fnValue(f, nil) },
 	}
 	fsig := ""
+	if f.usesJ || f.mutatesJ {
+		fsig += " (hj_ : HeapJ)"
+	}
+	if f.allocsJ {
+		fsig += " (alj_ : Go.Ptr)"
+	}
 	if f.usesFS || f.writesFS {
 		fsig = " (fs_ : FS)"
 	}
